@@ -299,6 +299,13 @@ K6_FB = [((a, "CM.GoTie.IFb." + t, d), "I_Fb") for a, t, d in [
     ("tie_k6_fallback_refused", "refused_not_invoked", "a refused fallback was not invoked"),
     ("tie_k6_fallback_disabled", "fallback_disabled", "a disabled fallback returns the run step's error and touches nothing")]]
 
+K6_MGR = [((a, "CM.GoTie.IMgr." + t, d), "I_Mgr") for a, t, d in [
+    ("tie_k6_CreateCircuit", "create_solo", "today's `CreateCircuit`, its Lock and its deferred Unlock each preceded by an arbitrary move of the others (which may register the same name just before), takes exactly the steps of the registry model's thread: created / exists / waiting for the lock"),
+    ("tie_k6_GetCircuit", "get_solo", "`GetCircuit` under the read lock likewise"),
+    ("tie_k6_AllCircuits", "all_solo", "`AllCircuits` likewise (sorted ids: Go's map order is unspecified)"),
+    ("tie_k6_CreateCircuit_factors", "create_factors", "between its two lock steps `CreateCircuit` is the sequentially tied body, run on the registry as the oracle left it"),
+    ("tie_k6_oracles", "schedule_oracles_rely", "the oracles `thread_view` builds satisfy the rely condition (the ghost log is invisible)")]]
+
 PROPS = {
     "C01": ("load shedding: who is admitted is decided by `allowNewRun` / `run`",
             [C("IsOpen"), C("allowNewRun"), RUN] + NEVER + ERR_OPEN + K6_CALL + K6_TRANS + K6_CORE + RUN_C01 + RUN_EVENTS[:1] + RUN_VIEWS[:1] + RUN_LIVE + HFAC_CLOSER[:3] + HFAC_LAYERS[:1]),
@@ -341,7 +348,7 @@ PROPS = {
     "C14": ("the counter under interference: every atomic step of rolling_counter.go / rolling_bucket.go is the small-step model's", K6_RC + K6_CORE + ATOM_I64),
     "C15": ("rolling_percentile.go: the ring of circular buffers is the model `RP` / `DSlot`, the snapshot's numbers are the model `SD`", RPT + SD + FSNEW_RP),
     "C16": ("the gate: timedcheck.go's method bodies are the model `TC`", TC + K6_TC + K6_CORE + ATOM_BOOL + ATOM_I64 + TC_HOOK),
-    "C17": ("the registry: manager.go's CreateCircuit / GetCircuit / MustCreateCircuit are the model `Mgr`", MGR + STATFACTORY + STATSFIND + MGR_ALL + CTOR + HFAC_LAYERS),
+    "C17": ("the registry: manager.go's CreateCircuit / GetCircuit / MustCreateCircuit are the model `Mgr`", MGR + STATFACTORY + STATSFIND + MGR_ALL + CTOR + HFAC_LAYERS + K6_MGR + K6_CORE),
     "C20": ("the collectors' method bodies, translated from today's rolling.go / responsetime.go, are the model's functions",
             T("GoRunStats", evs("GoRunStats", "Cons.RunStats.onRun") + [
                 ("tie_GoRunStats_ErrorsAt", "CM.GoTie.GoRunStats.go_ErrorsAt_eq", "errors = failures + timeouts, both read at the same instant"),
@@ -377,7 +384,7 @@ UNITS = {"F_": "gocircuit", "All": "gocircuit", "T_GoHOpener": "gohopener", "T_G
          "T_GoHFacLayers": ["gohfaclayers"], "T_GoHFacCloser": ["gohfaccloser"], "T_GoHFacOpener": ["gohfacopener", "gohfacopenerset"], "T_GoHFacOpenerSet": ["gohfacopenerset"],
          "T_GoHFacNow": ["gohfacnow"], "T_GoHFacConsec": ["gohfacconsec"], "T_GoHFacNever": ["gohfacnever"],
          "T_GoHFacChain": ["gohfaclayers", "gohfaccloser", "gohfacopener", "gohfacopenerset"],
-         "I_Core": [], "Props.RunAll": [], "I_Fb": "gofbi", "I_RC": ["gorciclear", "gorciadv", "gorciops"], "I_TC": "gotci", "I_Call": "gocalli",
+         "I_Core": [], "Props.RunAll": [], "I_Fb": "gofbi", "I_Mgr": ["gomgri", "gomgriall", "gomanager"], "I_RC": ["gorciclear", "gorciadv", "gorciops"], "I_TC": "gotci", "I_Call": "gocalli",
          "T_GoLiveLogic": ["goneveropens", "gonevercloses", "gohopenercfg", "gohclosercfg", "goslocfg"]}
 
 def units_of(prop):
